@@ -165,7 +165,7 @@ func TestC06(t *testing.T) {
 		// A third of the configurations reach the router the way they do in the
 		// program: through a configuration file (JSON or YAML, written by the rig
 		// under the documented key names; YAML files go without the address block,
-		// see vnet.loadViaFile).
+		// see vnet.LoadViaFile).
 		viaFile := core.OneOf(c, "config.via", "", "", "json", "yaml", "yml")
 		V, err := vn.AddNode("V", vID, vnet.NodeOpts{Store: st, WithTun: true, ViaFile: viaFile})
 		if err != nil && strings.Contains(err.Error(), "is refused as a") {
